@@ -420,7 +420,7 @@ def wide_beyond_64(z):
     return any(not (-2**63 <= x < 2**63) for x in zs)
 
 
-def hand_layer(run, rng, tier):
+def hand_layer(run, rng, tier, model):
     builds = {}
     for bname, opts in (("wide", ("-fcompound-names", "-fwide-types")), ("native", ("-fcompound-names",))):
         mods = [hand_module("WINT", WIDE_INT, WIDE_INT_TYPES), hand_module("DDEF", DEFAULTS, DEFAULTS_TYPES), hand_module("BBIT", BITS, BITS_TYPES)]
@@ -534,13 +534,27 @@ def hand_layer(run, rng, tier):
                         lines.append("cmp %s ber %s ber %s" % (tn, b.hex(), inputs[0].hex()))
                         meta.append(("equal", 0, z))
             pool = [0, 1, -1, 2, -2, 127, 128, -128, -129, 255, 256, -255, -256, -257, 32767, -32768, -32769, 65535, -65536, 2**63, -2**63, -2**63 - 1, 2**64, -(2**71) - 3, 2**80]
+            mlines = []
             for _ in range(60 if tier == "quick" else 400):
                 a, b = rng.choice(pool), rng.choice(pool)
                 if rng.chance(1, 3):
                     b = a + rng.choice([-1, 1, 256, -256])
-                lines.append("cmp I ber %s ber %s" % (uni(2, ival(a, rng.below(3))).hex(), uni(2, ival(b, rng.below(3))).hex()))
+                ca, cb = ival(a, rng.below(3)), ival(b, rng.below(3))
+                lines.append("cmp I ber %s ber %s" % (uni(2, ca).hex(), uni(2, cb).hex()))
                 meta.append(("order", (a > b) - (a < b), (a, b)))
+                mlines.append("intcmp %s %s" % (ca.hex(), cb.hex()))
             out = run_mod(run, m, lines, "C06-compare")
+            # faithfulness: the extracted model of INTEGER_compare on the same contents octets
+            rcm, mo, me = run_lines(model, mlines, timeout=300)
+            if rcm != 0 or len(mo) != len(mlines):
+                run.violation("model:driver", {"what": "model driver failed (intcmp)", "rc": rcm, "stderr": me[-1500:]}, no_input=True)
+                mo = []
+            for ml, r, l, o in zip(mlines, mo, lines[len(lines) - len(mlines):], out[len(out) - len(mlines):]):
+                run.case(ml)
+                run.count("model_intcmp")
+                if r != o.strip():
+                    run.violation("correspondence:CanonicalCompare.int_compare", {"what": "INTEGER_compare and its model disagree: C %s, model %s" % (o[:40], r[:40]),
+                                                                                 "command_line": ml, "c_command": l, "asn1c_options": bname}, no_input=True)
             for (what, exp, z), l, o in zip(meta, lines, out):
                 run.case(bname + " " + l)
                 run.count("compare_" + what)
@@ -562,7 +576,7 @@ def main(tier):
     try:
         model = model_build()
         mods = model_layer(run, rng, tier, model)
-        hand_layer(run, rng, tier)
+        hand_layer(run, rng, tier, model)
     except BuildError as e:
         run.violation("build", {"what": str(e)[-2500:]}, no_input=True)
         return run.finish("proof", (nthm, ndis))
